@@ -133,6 +133,8 @@ structure GoodBlock (es : List Entry) : Prop where
   enc : ∀ e ∈ es, Encodable e
   count : es.length < 2 ^ 16
   size : sizeSum es < 2 ^ 31 + 2 ^ 17
+  /-- `flushLocked` writes nothing for an empty buffer -/
+  ne : es ≠ []
 
 theorem enc_length_lt (codec : Codec) (u : Bytes) (h : u.length < 2 ^ 31 + 2 ^ 17) :
     (codec.enc u).length < 2 ^ 32 := by
@@ -148,9 +150,9 @@ def blockResOf (r : Except Err (List Entry)) (rest : Bytes) : BlockRes :=
 /-- `readNextBlock` on a block written by `flushLocked` from *any* entries, however many: header,
     checksum, decompression and length check all pass; what remains is the entry loop, run for
     `len mod 65536` entries. -/
-theorem readNextBlock_encodeBlock_any (cfg : Cfg) (codec : Codec) (crc : Checksum) (es : List Entry)
+theorem readNextBlockCore_encodeBlock_any (cfg : Cfg) (codec : Codec) (crc : Checksum) (es : List Entry)
     (rest : Bytes) (hsize : sizeSum es < 2 ^ 31 + 2 ^ 17) :
-    readNextBlock cfg codec.toDecoder crc (encodeBlock codec crc es ++ rest)
+    readNextBlockCore cfg codec.toDecoder crc (encodeBlock codec crc es ++ rest)
       = blockResOf (finishParse cfg (encodeEntries es).length (parseEntries (es.length % 2 ^ 16) (encodeEntries es))) rest := by
   have hu : (encodeEntries es).length < 2 ^ 31 + 2 ^ 17 := by rw [encodeEntries_length]; exact hsize
   have hc : (codec.enc (encodeEntries es)).length < 2 ^ 32 := enc_length_lt codec _ hu
@@ -163,7 +165,7 @@ theorem readNextBlock_encodeBlock_any (cfg : Cfg) (codec : Codec) (crc : Checksu
     simp [encodeBlock, hcdef]
   have hcond : (decide (0 < c.length) && (c ++ rest).isEmpty) = false := by
     cases c <;> simp
-  unfold readNextBlock
+  unfold readNextBlockCore
   simp only [shorterThan_eq, decide_eq_true_eq]
   rw [e0]
   rw [if_neg (by simp [encodeBlockHeader_length])]
@@ -187,22 +189,54 @@ theorem readNextBlock_encodeBlock_any (cfg : Cfg) (codec : Codec) (crc : Checksu
   rw [hpb]
   cases finishParse cfg (encodeEntries es).length (parseEntries (es.length % 2 ^ 16) (encodeEntries es)) <;> rfl
 
-theorem readNextBlock_encodeBlock_gen (cfg : Cfg) (codec : Codec) (crc : Checksum) (es : List Entry)
+theorem readNextBlockCore_encodeBlock_gen (cfg : Cfg) (codec : Codec) (crc : Checksum) (es : List Entry)
     (rest : Bytes) (hcount : es.length < 2 ^ 16) (hsize : sizeSum es < 2 ^ 31 + 2 ^ 17) :
-    readNextBlock cfg codec.toDecoder crc (encodeBlock codec crc es ++ rest)
+    readNextBlockCore cfg codec.toDecoder crc (encodeBlock codec crc es ++ rest)
       = blockResOf (finishParse cfg (encodeEntries es).length (parseEntries es.length (encodeEntries es))) rest := by
-  rw [readNextBlock_encodeBlock_any cfg codec crc es rest hsize, Nat.mod_eq_of_lt hcount]
+  rw [readNextBlockCore_encodeBlock_any cfg codec crc es rest hsize, Nat.mod_eq_of_lt hcount]
+
+/-- the size field of a written block, whatever follows it -/
+theorem csize_encodeBlock (codec : Codec) (crc : Checksum) (es : List Entry) (rest : Bytes)
+    (hsize : sizeSum es < 2 ^ 31 + 2 ^ 17) :
+    (decodeBlockHeader (encodeBlock codec crc es ++ rest)).csize = (codec.enc (encodeEntries es)).length := by
+  have hu : (encodeEntries es).length < 2 ^ 31 + 2 ^ 17 := by rw [encodeEntries_length]; exact hsize
+  have hc : (codec.enc (encodeEntries es)).length < 2 ^ 32 := enc_length_lt codec _ hu
+  have e0 : encodeBlock codec crc es ++ rest
+      = encodeBlockHeader ⟨(codec.enc (encodeEntries es)).length, (encodeEntries es).length, es.length,
+          (crc (codec.enc (encodeEntries es))).toNat, 0⟩ ++ (codec.enc (encodeEntries es) ++ rest) := by
+    simp [encodeBlock]
+  rw [e0, decodeBlockHeader_encode_mod]
+  exact Nat.mod_eq_of_lt hc
+
+/-- a written block is never empty: its size field is not the 0 the reader takes for the end -/
+theorem csize_encodeBlock_ne_zero (codec : Codec) (crc : Checksum) (es : List Entry) (rest : Bytes)
+    (hsize : sizeSum es < 2 ^ 31 + 2 ^ 17) (hne : es ≠ []) :
+    (decodeBlockHeader (encodeBlock codec crc es ++ rest)).csize ≠ 0 := by
+  rw [csize_encodeBlock codec crc es rest hsize]
+  have hu : encodeEntries es ≠ [] := by
+    intro h
+    have hl := encodeEntries_length es
+    rw [h] at hl
+    cases es with
+    | nil => exact hne rfl
+    | cons e t => simp [sizeSum, Entry.size] at hl; omega
+  have := codec.nonempty _ hu
+  intro h0
+  exact this (List.eq_nil_of_length_eq_zero h0)
 
 /-- `readNextBlock` on a block written by `flushLocked`, whatever follows it
     (for every lawful codec, every checksum, every value of the code facts). -/
 theorem readNextBlock_encodeBlock (cfg : Cfg) (codec : Codec) (crc : Checksum) (es : List Entry)
     (rest : Bytes) (hg : GoodBlock es) :
     readNextBlock cfg codec.toDecoder crc (encodeBlock codec crc es ++ rest) = .ok es rest := by
-  rw [readNextBlock_encodeBlock_gen cfg codec crc es rest hg.count hg.size]
-  have hpe := parseEntries_encodeEntries es [] hg.enc
-  rw [List.append_nil] at hpe
-  rw [hpe]
-  simp [finishParse, encodeEntries_length, blockResOf]
+  apply readNextBlock_of_core_ok
+  · rw [readNextBlockCore_encodeBlock_gen cfg codec crc es rest hg.count hg.size]
+    have hpe := parseEntries_encodeEntries es [] hg.enc
+    rw [List.append_nil] at hpe
+    rw [hpe]
+    simp [finishParse, encodeEntries_length, blockResOf]
+  · intro _
+    exact csize_encodeBlock_ne_zero codec crc es rest hg.size hg.ne
 
 /-- a zero key-length field is always rejected: this is what an empty key *and* a 65536-byte key
     look like on disk -/
